@@ -31,7 +31,7 @@ FACETS = {
 def clause_props(K, clause, cfg):
     """Properties an obligation counts for."""
     mode = cfg.get("mode", "plain")
-    if clause.startswith(("pre[", "cover.", "canary", "loop.", "frame.")):
+    if clause.startswith(("pre[", "setup.", "cover.", "canary", "loop.", "frame.")):
         return {"*"} | _ALL
     out = set()
     if clause.startswith("C."):
